@@ -3,7 +3,7 @@ C01 — PigeonholePrinciple(pigeons, holes, functional, onto): the satisfying as
 exactly the placements of pigeons; satisfiable iff such a placement exists.
 Property theorems only; helper lemmas are in `Lemmas/Fam*.lean`.
 -/
-import Lemmas.FamPigeon
+import Lemmas.C01Pigeon
 import CnfgenModel.Fam.Php
 namespace Cnfgen.C01
 open Cnfgen Cnfgen.Fam
